@@ -267,7 +267,7 @@ def _ident(e):
 
 def end_tasks(tier, role, what=('routing', 'batching')):
     ts = []
-    L = [2, 1] if tier == 'quick' else [3, 2]
+    L = [2, 1] if tier == 'quick' else [3, 1]
     cfgs = []
     if 'routing' in what:
         cfgs += [dict(blocks=[3], strategy='GroupBy', mode='fixed', bsize=2, max_len=[2, 0]),
